@@ -1913,8 +1913,9 @@ SEXP_API sexp sexp_register_type_op (sexp, sexp, sexp_sint_t, sexp, sexp, sexp, 
 SEXP_API sexp sexp_register_simple_type_op (sexp ctx, sexp self, sexp_sint_t n, sexp name, sexp parent, sexp slots);
 SEXP_API sexp sexp_finalize_c_type (sexp ctx, sexp self, sexp_sint_t n, sexp obj);
 #define sexp_register_c_type(ctx, name, finalizer)                      \
-  sexp_register_type(ctx, name, SEXP_FALSE, SEXP_FALSE, SEXP_ZERO, SEXP_ZERO, \
-                     SEXP_ZERO, SEXP_ZERO, SEXP_ZERO,                   \
+  sexp_register_type(ctx, name, SEXP_FALSE, SEXP_FALSE,                 \
+                     sexp_make_fixnum(sexp_offsetof(cpointer, parent)), \
+                     SEXP_ZERO, SEXP_ONE, SEXP_ZERO, SEXP_ZERO,         \
                      sexp_make_fixnum(sexp_sizeof(cpointer)),           \
                      SEXP_ZERO, SEXP_ZERO, SEXP_ZERO, SEXP_ZERO,        \
                      SEXP_ZERO, SEXP_ZERO, SEXP_ZERO, NULL,             \
